@@ -35,8 +35,11 @@ EXTERNAL_STATEFUL = {
 
 
 def pure_scope(ctx: Ctx) -> dict[str, FuncInfo]:
+    from .common import framework_hook_functions
+
     roots = [ctx.repo.func(q) for q in ROOTS]
-    return reachable_functions(ctx.prog, roots)
+    # (plus what marko calls on the package's element / parser / renderer classes while it parses and renders)
+    return reachable_functions(ctx.prog, roots + list(framework_hook_functions(ctx.repo).values()))
 
 
 def _name_scope(ctx: Ctx, fi: FuncInfo, name: str) -> str:
